@@ -49,6 +49,8 @@ Section Optimiser.
 
   Definition ofN (n : N) : T := nofZ (Z.of_N n).
   Definition tenth : T := nofZ 1 / nofZ 10.
+  (* f64::MAX = (2^53 - 1) * 2^971: float_ofpos builds it exactly (53 leading one bits, then doublings) *)
+  Definition fmax_ : T := nofZ (2 ^ 1024 - 2 ^ 971).
 
   (* number of inner loops the run performs *)
   Definition loops_of (steps inner : N) : N :=
@@ -58,14 +60,15 @@ Section Optimiser.
     let inner' := N.min (b_inner b) (b_steps b) in
     let f :=
       match b_kt_ratio b, b_kt_finish b with
-      | Some r, _ => nmax n0 (n1 - r)          (* f64::max(0., 1. - ratio) *)
+      | Some r, _ => nmin (nmax n0 (n1 - r)) fmax_   (* f64::max(0., 1. - ratio).min(f64::MAX) *)
       | None, Some fin =>
           if andb (n0 <? b_kt_start b) (negb (N.eqb inner' 0))
           then fpow (fin / b_kt_start b) (n1 / ofN (loops_of (b_steps b) inner'))
           else tenth
       | None, None => tenth
       end in
-    {| kt_start := b_kt_start b; factor := f; max_step := b_max_step b;
+    {| kt_start := (if b_kt_start b =? n0 then n0 else b_kt_start b);   (* -0.0 becomes 0. *)
+       factor := f; max_step := b_max_step b;
        steps := b_steps b; inner := inner'; conv := b_conv b |}.
 
   (* ------------------------------------------------------------------ *)
